@@ -293,8 +293,29 @@ def gen_docs(tier):
     return docs
 
 
+def list_docs(tier):
+    """Every list prefix over {*, #, :, ;} up to length 3 (thorough 4): one item, two items, the staircase leading to it,
+    and for prefixes ending in ';' the definition on the same line and on its own line."""
+    out = []
+    atoms = ["x", "'''b'''", "[[a]]", "{{t|x}}"]
+    for L in range(1, 4 if tier == "quick" else 5):
+        for pre in itertools.product("*#:;", repeat=L):
+            p = "".join(pre)
+            for a in atoms:
+                out.append("%s%s\n" % (p, a))
+                out.append("%s%s\n%sy\n" % (p, a, p))
+                if L > 1:
+                    out.append("".join("%s%s\n" % (p[:k], a) for k in range(1, L + 1)))
+                if p.endswith(";"):
+                    out.append("%s%s:d\n" % (p, a))
+                    out.append("%s%s\n%s:d %s\n" % (p, a, p[:-1], a))
+                    out.append("%s%s\n%s:d\n%sz\n" % (p, a, p[:-1], p))
+    return out
+
+
 def main(run):
     docs = gen_docs(run.tier)
+    docs += [(d, True) for d in list_docs(run.tier)]
     n = 128
     # an unclosed literal "[[" followed anywhere by "]]" is a real link, not literal text: outside the grammar
     docs = [d for d in docs if not (d[0].find("p [[ q") >= 0 and "]]" in d[0][d[0].find("p [[ q") + 6:])]
@@ -308,8 +329,9 @@ def main(run):
                 "definition lists in both forms, 3 table shapes incl. attributes/caption/header/inline separators, rule, div) whose "
                 "slots range over all inline expressions of nesting depth <= 2 (%d atoms incl. literal [[ and ]], %d wrappers: bold, "
                 "italic, piped link, template positional/named arg, parser function, span/b elements with URL-safe attrs, external "
-                "link, parameter); every self-standing sub-tree and children list of each parsed document passed directly; "
-                "distinct = distinct normal-form trees." % (2 if run.tier == "quick" else 3, len(BLOCKS), len(ATOMS), len(WRAPS)),
+                "link, parameter); plus every list prefix over {*, #, :, ;} of length <= %d as one item, two items, a staircase, and "
+                "(for prefixes ending in ';') with the definition on the same and on its own line; every self-standing sub-tree and children list of each parsed document passed directly; "
+                "distinct = distinct normal-form trees." % (2 if run.tier == "quick" else 3, len(BLOCKS), len(ATOMS), len(WRAPS), 3 if run.tier == "quick" else 4),
         "exhaustive": True,
     }
     assumptions = [
